@@ -98,7 +98,7 @@ def _run_convert(ctx, call):
 
 def h_convert(ctx, infmt=True, outfmt=True, twin=False):
     if ctx.mode == "conc":
-        return _concrete(ctx, twin)
+        return _concrete(ctx, twin, f"infmt={infmt},outfmt={outfmt}", infmt, outfmt)
     infn, outfn = _T(z3.Const("infn", S)), _T(z3.Const("outfn", S))
     i = _T(z3.Const("infmt", S)) if infmt else None
     o = _T(z3.Const("outfmt", S)) if outfmt else None
@@ -118,7 +118,7 @@ def h_convert(ctx, infmt=True, outfmt=True, twin=False):
     ctx.oblige("effect-equals-API-composition", SymBool(effects[0] == want), cls=f"infmt={infmt},outfmt={outfmt}")
 
 
-def _concrete(ctx, twin):
+def _concrete(ctx, twin, cls, infmt, outfmt):
     """Replay: run convert() with recording stubs on concrete flags."""
     import iodata.__main__ as M
     many = ctx.bool("many")
@@ -130,14 +130,15 @@ def _concrete(ctx, twin):
     M.dump_one = lambda d, fn, *, fmt=None, allow_changes=False: calls.append(("dump_one", d, fn, allow_changes, fmt))
     M.dump_many = lambda d, fn, *, fmt=None, allow_changes=False: calls.append(("dump_many", d, fn, allow_changes, fmt))
     try:
-        M.convert("in.x", "out.y", many, "fi", "fo", allow)
+        M.convert("in.x", "out.y", many, "fi" if infmt else None, "fo" if outfmt else None, allow)
     finally:
         for n, v in saved.items():
             setattr(M, n, v)
     kind = "many" if many else "one"
-    want = (f"dump_{kind}", (f"load_{kind}", "in.x", "fi"), "out.y", allow if not twin else False, "fo")
-    ctx.oblige("exactly-one-dump-call", len(calls) == 1)
-    ctx.oblige("effect-equals-API-composition", calls and calls[0] == want)
+    want = (f"dump_{kind}", (f"load_{kind}", "in.x", "fi" if infmt else None), "out.y", allow if not twin else False,
+            "fo" if outfmt else None)
+    ctx.oblige("exactly-one-dump-call", len(calls) == 1, cls=cls)
+    ctx.oblige("effect-equals-API-composition", bool(calls) and calls[0] == want, cls=cls)
 
 
 def h_main(ctx):
